@@ -13,7 +13,7 @@ import (
 func init() { Registry["C10"] = checkC10 }
 
 func checkC10(p *core.Prog, r *core.Report) {
-	r.Explanation = "Decides structural necessary conditions of leader-only decisions: (R1) in LockDB.Lock/UnLock every engine mutation (mutator call or store to hold/queue/value state) lies on a path where the node's role was tested under the shard mutex in the same critical section and is leader, or the request is marked as replay (FROM_AOF); the role field LockDB.status is only written with the shard mutexes held (interprocedural lock-state); (R2) in the follower-side (Transparency*) protocols every call into the local engine lies on a path that tested slock.state == LEADER (or, for pass-through of non-lock commands, tested the command type); (R3) PushLockAof / PushUnLockAof / PushExecutorLockCommand reach their push only after testing status == LEADER; (R4) doExpried ends a hold on its own clock only when forced, leader, not replicated, or after the leader-wait window (EXPRIED_WAIT_LEADER_MAX_TIME) has elapsed; (R5) the leader and follower text command registries have the same command names; (R6) the replay mark FROM_AOF (flag 0x04), which exempts a request from the role test, is never taken from a client frame: every client-facing decoder path to the engine masks or rejects it. NOT decided: reply relaying fidelity, reconnection to a new leader, equality of outcomes across nodes."
+	r.Explanation = "Decides structural necessary conditions of leader-only decisions: (R1) in LockDB.Lock/UnLock every engine mutation (mutator call or store to hold/queue/value state) lies on a path where the node's role was tested under the shard mutex in the same critical section and is leader, or the request is marked as replay (FROM_AOF); the role field LockDB.status is only written with the shard mutexes held (interprocedural lock-state); (R2) in the follower-side (Transparency*) protocols every call into the local engine lies on a path that tested slock.state == LEADER (or, for pass-through of non-lock commands, tested the command type); (R3) PushLockAof / PushUnLockAof / PushExecutorLockCommand reach their push only after testing status == LEADER; (R4) doExpried ends a hold on its own clock only when forced, leader, not replicated, or after the leader-wait window (EXPRIED_WAIT_LEADER_MAX_TIME) has elapsed; (R5) the leader and follower text command registries have the same command names; (R6) the replay mark FROM_AOF (flag 0x04), which exempts a request from the role test, is never taken from a client frame: every client-facing decoder path to the engine masks or rejects it. (R7) the only local answer of a non-leader, the concurrent-check shortcut, is given only to requests with that flag and Timeout == 0; (R8) AddLock marks every hold created from a replayed record as isAof independent of role (what the follower's expiry arm re-arms). NOT decided: reply relaying fidelity, reconnection to a new leader, equality of outcomes across nodes."
 	r.Assumptions = []string{"Go type checker, go/ssa and VTA call graph are correct for /repo", "all *PriorityMutex values are one abstract lock class"}
 	c10R1(p, r)
 	c10R1b(p, r)
@@ -22,6 +22,8 @@ func checkC10(p *core.Prog, r *core.Report) {
 	c10R4(p, r)
 	c10R5(p, r)
 	c10R6(p, r)
+	c10R7(p, r)
+	c10R8(p, r)
 }
 
 func engineStateStore(k core.FieldKey) bool {
@@ -430,5 +432,106 @@ func c10R6(p *core.Prog, r *core.Report) {
 		}
 		sort.Strings(ss)
 		r.Violate(rule, key, pos, fmt.Sprintf("a client frame's flag byte reaches the engine with bit 0x04 (FROM_AOF) intact at %d client-facing call sites (%s); the engine's role test exempts such a request, so a node that lost leadership between the protocol's leader test and the engine's decides on its own", len(bad[which]), strings.Join(ss, ", ")), nil)
+	}
+}
+
+// c10R7: the one answer a non-leader gives on its own is the concurrent-check
+// shortcut (CheckProbableLock, called by the forwarding protocols before they
+// relay a LOCK): "would certainly not be admitted right now". That is only the
+// leader's answer too when the request would not wait - flag CONCURRENT_CHECK
+// set and Timeout == 0. For a request with a timeout the leader queues it, so
+// a local TIMEOUT makes the outcome depend on which node was asked.
+func c10R7(p *core.Prog, r *core.Report) {
+	const rule = "C10/R7"
+	r.Rule(rule, "CheckProbableLock answers locally only requests with the concurrent-check flag and Timeout == 0", 2)
+	fn := mustFunc(p, r, "server.(*LockDB).CheckProbableLock")
+	if fn == nil {
+		return
+	}
+	cmd := fn.Params[2].Name()
+	n := 0
+	ex := core.NewExplorer(p, core.Hooks{
+		Track: func(x *core.X, a core.Atom) bool {
+			s := core.Plain(a.String())
+			return strings.Contains(s, cmd+".Flag & 8)") || strings.Contains(s, cmd+".Timeout")
+		},
+		Instr: func(x *core.X) {
+			if !x.Top() {
+				return
+			}
+			if rq, _, _, ok := replyCall(x, x.Ins); ok && rq == cmd {
+				n++
+				key := siteKey(p, x.Ins)
+				flag := x.Passed("(" + cmd + ".Flag & 8) != 0")
+				zero := x.Passed(cmd+".Timeout == 0") || x.Passed(cmd+".Timeout <= 0")
+				if flag && zero {
+					r.Hold(rule, key, x.Pos(), "concurrent-check request that would not wait")
+				} else {
+					r.Violate(rule, key, x.Pos(), fmt.Sprintf("a non-leader answers this request itself (concurrent-check flag tested: %v, Timeout == 0 tested: %v): the leader would queue a request with a timeout and grant it later, so the result depends on which node was asked", flag, zero), x.St.Trace)
+				}
+			}
+		},
+	})
+	ex.Run(fn, nil)
+	if ex.Imprecise != "" {
+		r.Fail("C10/R7: %s", ex.Imprecise)
+	}
+	if n == 0 {
+		r.Fail("C10/R7: no local reply found in CheckProbableLock")
+	}
+}
+
+// c10R8: a hold created from a stream / log record (FROM_AOF) is marked isAof
+// whatever the node's role. doExpried's follower arm re-arms exactly the holds
+// with isAof; a replicated hold without the mark is ended by the follower on
+// its own clock, before the leader's record arrives.
+func c10R8(p *core.Prog, r *core.Report) {
+	const rule = "C10/R8"
+	r.Rule(rule, "AddLock marks every hold created from a replayed record (FROM_AOF) as isAof, on every path, independent of the node's role", 1)
+	fn := mustFunc(p, r, "server.(*LockManager).AddLock")
+	if fn == nil {
+		return
+	}
+	lk := fn.Params[1].Name()
+	n := 0
+	ex := core.NewExplorer(p, core.Hooks{
+		Track: func(x *core.X, a core.Atom) bool { return strings.Contains(core.Plain(a.String()), ".Flag & 4)") },
+		Instr: func(x *core.X) {
+			if !x.Top() {
+				return
+			}
+			if st, ok := x.Ins.(*ssa.Store); ok {
+				if k, ok := storeKey(st.Addr); ok && k == fk("server.Lock", "isAof") && x.Canon(st.Val).S == "true" {
+					if strings.HasPrefix(core.Plain(x.Canon(st.Addr).S), "&"+lk+".") {
+						x.Set("marked", "1")
+					}
+				}
+			}
+		},
+		Exit: func(x *core.X, rets []core.Expr) {
+			replay := false
+			for h := range x.St.Hist {
+				if strings.HasSuffix(h, ".Flag & 4) != 0") {
+					replay = true
+				}
+			}
+			if !replay {
+				return
+			}
+			n++
+			key := "server.(*LockManager).AddLock: hold from a replayed record"
+			if x.Get("marked") == "1" {
+				r.Hold(rule, key, x.Pos(), "marked isAof")
+			} else {
+				r.Violate(rule, key, x.Pos(), "a hold created from a replayed record leaves AddLock without isAof on this path: a follower's expiry sweep does not re-arm it and ends it on its own clock", x.St.Trace)
+			}
+		},
+	})
+	ex.Run(fn, nil)
+	if ex.Imprecise != "" {
+		r.Fail("C10/R8: %s", ex.Imprecise)
+	}
+	if n == 0 {
+		r.Fail("C10/R8: AddLock has no path that tests the FROM_AOF flag")
 	}
 }
